@@ -135,7 +135,7 @@ func applyLevel(h map[string]string, adds []hop, rm []string) {
 }
 
 func c17Engine(c *lab.Ctx) {
-	c.Rule("running MOSN, per protocol ~26 generated routes over the product of action fields; per route several requests (with/without query, pre-set header values); timeout-source probes at T/2 and 2T; retry policies x per-attempt outcome sequences, sequential clients; distinct = (protocol, action kind, fields used, outcome class)")
+	c.Rule("running MOSN, per protocol ~26 generated routes over the product of action fields; per route several requests (with/without query, pre-set header values); timeout-source probes at T/2 and 2T for the global timeout, and per-try timeout sources (header alone, with a global timeout header, with a protocol-supplied global timeout) judged by the number of upstream attempts; retry policies x per-attempt outcome sequences, sequential clients; distinct = (protocol, action kind, fields used, outcome class)")
 	rng := c.Rand("cfg")
 	protos := engineProtos
 	routesBy := map[string][]c17Route{}
@@ -496,6 +496,9 @@ func c17Engine(c *lab.Ctx) {
 						c17Timeouts(c, e, cl, proto, r, tok)
 					case (r.HasRetry || (r.Kind == "forward" && r.Timeout == 3000)) && rep == 0:
 						c17Retries(c, e, cl, proto, r, rng, tok)
+						if r.HasRetry && r.RetryOn && r.TryTimeout == 0 && len(r.StatusCodes) == 0 && r.NumRetries >= 2 {
+							c17TryTimeouts(c, e, cl, proto, r, tok)
+						}
 						_ = sig
 					}
 				}
@@ -593,6 +596,60 @@ func c17Timeouts(c *lab.Ctx, e *engine, cl client, proto string, r c17Route, tok
 			if last.Kind != "response" {
 				cl.close()
 			}
+		}
+	}
+}
+
+// c17TryTimeouts: which source decides the per-try timeout, also when the global timeout comes from another source. The route
+// retries (retry_on) but configures no retry_timeout and a 3000 ms timeout; the first attempt is answered after 1200 ms, the
+// second at once. With a per-try timeout of 300 ms in force the first attempt is abandoned and a second one is made (2 upstream
+// attempts, the second one's reply delivered); without one the first attempt's reply is delivered (1 attempt). Judged by the
+// upstream's attempt log; a mismatch must reproduce 3 of 3.
+func c17TryTimeouts(c *lab.Ctx, e *engine, cl client, proto string, r c17Route, tok func(string) string) {
+	type probe struct {
+		name   string
+		tryHdr int // x-mosn-try-timeout
+		gHdr   int // x-mosn-global-timeout
+		boltT  int // protocol-supplied (global) timeout
+		want   int // upstream attempts
+	}
+	probes := []probe{{"none", 0, 0, 0, 1}, {"try-header", 300, 0, 0, 2}, {"try-header+global-header", 300, 2800, 0, 2}}
+	if proto == "bolt" {
+		probes = append(probes, probe{"try-header+protocol-global", 300, 0, 2800, 2}, probe{"protocol-global-only", 0, 0, 2800, 1})
+	}
+	for _, p := range probes {
+		bad := 0
+		var lastN int
+		var last clEvent
+		for try := 0; try < 3; try++ {
+			t := tok(proto)
+			req := reqFor(proto, r.Key, t, "d1200:ok|ok")
+			if p.tryHdr > 0 {
+				req.Headers = append(req.Headers, [2]string{"x-mosn-try-timeout", fmt.Sprint(p.tryHdr)})
+			}
+			if p.gHdr > 0 {
+				req.Headers = append(req.Headers, [2]string{"x-mosn-global-timeout", fmt.Sprint(p.gHdr)})
+			}
+			req.BoltTimeout = int32(p.boltT)
+			c.Case("c17 try-timeout %s route=%s probe=%s token=%s", proto, r.Key, p.name, t)
+			last = cl.do(req)
+			lastN = len(e.log.upsFor(t))
+			if last.Kind != "response" {
+				cl.close()
+			}
+			if lastN == p.want && last.Kind == "response" && last.BodyToken == t {
+				break
+			}
+			bad++
+		}
+		c.Eval(1)
+		c.Distinct(fmt.Sprintf("%s|try-timeout|%s|attempts=%d|%s%d", proto, p.name, lastN, last.Kind, last.Status))
+		if bad == 3 {
+			c.Violation("timeout-precedence", "C17/try-timeout/"+p.name+"/"+proto,
+				fmt.Sprintf("%s route %s (retry_on, no retry_timeout, timeout 3000 ms), request with x-mosn-try-timeout=%d x-mosn-global-timeout=%d protocol timeout=%d, first attempt answered after 1200 ms: %d upstream attempts and client outcome %s %d, expected %d attempts and the upstream's reply (3/3)", proto, r.Key, p.tryHdr, p.gHdr, p.boltT, lastN, last.Kind, last.Status, p.want),
+				map[string]interface{}{"proto": proto, "probe": p.name, "attempts": lastN, "want": p.want, "outcome": last.Kind, "status": last.Status})
+		} else if bad > 0 {
+			c.Inconclusive("try-timeout probe mismatch not reproducible")
 		}
 	}
 }
